@@ -173,10 +173,35 @@ def gen(rng, tier):
         # policy vs consensus: standard flags against a block's flags
         bf = rng.choice(blocks)
         c.append(vpair(bf, std, ssig, spk, ob, wit, B))
-    for (ssig, spk, wit) in templates(rng, B, tier):
+    for (ssig, spk, wit) in templates(rng, B, tier) + std_templates(rng):
         for bf in blocks:
             c.append(vpair(bf, std, ssig, spk, 0xffffffff, wit, B))
     return c
+
+
+def std_templates(rng):
+    """spends that pass every STANDARD rule except the one being probed (well-formed low-S DER signature with SIGHASH_ALL,
+    compressed key, minimal pushes, clean stack), each varied in exactly one policy-relevant way: they are what separates a
+    standard flag set that lost a consensus flag from the block flags"""
+    out = []
+    sig = bytes([0x30, 6, 2, 1, rng.randrange(1, 127), 2, 1, rng.randrange(1, 127), 1])
+    pk = bytes([2]) + bytes(rng.randrange(256) for _ in range(32))
+    ms = op("1") + push(pk) + op("1") + op("CHECKMULTISIG")
+    for dummy in (op("0"), op("1"), push(b"\x00")):                      # NULLDUMMY
+        out.append((dummy + push(sig), ms, []))
+        out.append((dummy + push(sig) + push(ms), op("HASH160") + push(h160(ms)) + op("EQUAL"), []))
+        out.append((b"", b"\x00\x20" + sha(ms), [b"" if dummy == op("0") else b"\x01", sig, ms]))
+    nonder = bytes([0x30, 7, 2, 2, 0, 1, 2, 1, 1, 1])                      # DERSIG: padded R
+    for s in (sig, nonder, sig[:-1] + b"\x04"):
+        out.append((push(s), push(pk) + op("CHECKSIG"), []))
+    for n in (0, 1, 500000000):                                           # CLTV / CSV arguments
+        out.append((b"", push_int(n) + op("CHECKLOCKTIMEVERIFY") + op("DROP") + op("1"), []))
+        out.append((b"", push_int(n) + op("CHECKSEQUENCEVERIFY") + op("DROP") + op("1"), []))
+        out.append((b"", push_int(-1 - n) + op("CHECKLOCKTIMEVERIFY") + op("DROP") + op("1"), []))
+    out.append((op("1") + push(op("0")), op("HASH160") + push(h160(op("0"))) + op("EQUAL"), []))       # P2SH
+    out.append((b"", b"\x00\x20" + sha(op("0")), [op("0")]))                                              # WITNESS
+    out.append((b"", op("1"), [b"\x01"]))                                                                 # unexpected witness
+    return out
 
 
 def shrink(case):
